@@ -93,7 +93,8 @@ def case_s(draw) -> dict[str, Any]:
         runs[0]["seed"], runs[0]["params"], runs[0]["flaky"] = runs[t]["seed"], runs[t]["params"], runs[t]["flaky"]
         target = t
         select = "name"
-    return {"runs": runs, "target": target, "select": select, "allow_silence_in_state": False, "share_handler": n > 1 and draw(st.integers(0, 3)) == 0}
+    return {"runs": runs, "target": target, "select": select, "allow_silence_in_state": False, "share_handler": n > 1 and draw(st.integers(0, 3)) == 0,
+            "db_open_elsewhere": draw(st.integers(0, 3)) == 0}
 
 
 def make_recorded_ecu(run: dict[str, Any]) -> Any:
@@ -278,6 +279,21 @@ def check(case: dict[str, Any]) -> list[tuple[str, str]]:
     try:
         db = d / "db.sqlite"
         recs = []
+        hold = None
+        if case.get("db_open_elsewhere"):
+            # some other program (a database browser, a second gallia) has the database file open all the time: the recorded rows
+            # then still sit in the write-ahead log when the virtual ECU is started
+            from gallia.db.handler import DBHandler
+
+            async def pre() -> None:
+                h = DBHandler(db)
+                await h.connect()
+                await asyncio.sleep(0.01)  # (a handler closed before its writer task ever ran raises CancelledError: not a flow gallia has)
+                await h.disconnect()
+
+            asyncio.run(pre())
+            hold = sqlite3.connect(db)
+            hold.execute("SELECT count(*) FROM scan_result").fetchall()
         if case.get("share_handler"):
             try:
                 recs = record_shared(db, case["runs"], case.get("allow_silence_in_state", False))
@@ -299,7 +315,11 @@ def check(case: dict[str, Any]) -> list[tuple[str, str]]:
             out.append(("C12/presupposition/client-and-ecu-state-differ", rec["state_mismatch"]))
             return out
         reqs = [b for b, _, _ in rec["transcript"]]
-        got = replay_db(db, name, props, reqs)
+        try:
+            got = replay_db(db, name, props, reqs)
+        finally:
+            if hold is not None:
+                hold.close()
     finally:
         shutil.rmtree(d, ignore_errors=True)
     ctx = f"runs={[(r['seed'], r['name']) for r in case['runs']]} replay of {run['name']} selected by {sel}"
